@@ -141,10 +141,22 @@ func isStructPtr(t types.Type) (types.Type, bool) {
 	if isTimeType(p.Elem()) {
 		return nil, false
 	}
+	if foreignNamed(p.Elem()) {
+		return nil, false // *os.File, *bufio.Writer, ...: opaque handles
+	}
 	if _, ok := p.Elem().Underlying().(*types.Struct); ok {
 		return p.Elem(), true
 	}
 	return nil, false
+}
+
+// foreignNamed: a named type declared outside the package under verification (its fields are never read here).
+func foreignNamed(t types.Type) bool {
+	n, ok := t.(*types.Named)
+	if !ok || n.Obj() == nil || n.Obj().Pkg() == nil {
+		return false
+	}
+	return !strings.HasSuffix(n.Obj().Pkg().Path(), "internal/ergo")
 }
 
 // place resolves a pointer-typed SSA value to a location.
@@ -972,6 +984,22 @@ func (fr *Frame) evalCtxAt(st, old *State, li *LoopInfo, phiOverride map[*ssa.Ph
 // lookupLocal resolves a source-level variable name.
 func (fr *Frame) lookupLocal(name string, at *ssa.BasicBlock, phiOverride map[*ssa.Phi]Term, x *EvalCtx) (TV, bool) {
 	fn := fr.fn
+	// a parameter that the loop reassigns is, at the loop head, the loop's phi of that name (go/ssa parameters
+	// are immutable values; the source variable is not)
+	if at != nil && name != "index" {
+		for _, ins := range at.Instrs {
+			phi, ok := ins.(*ssa.Phi)
+			if !ok {
+				break
+			}
+			if phi.Comment == name {
+				if t, ok := phiOverride[phi]; ok {
+					return TV{t, phi.Type()}, true
+				}
+				return TV{fr.val(phi), phi.Type()}, true
+			}
+		}
+	}
 	for _, p := range fn.Params {
 		if p.Name() == name {
 			if _, isPlace := fr.places[p]; isPlace {
